@@ -22,7 +22,7 @@ func runC17(r *ev.Run) {
 	r.SetRule("servers with small limits (4-8 mailboxes, 2-6 messages per mailbox, highest UID 6-16) run histories of CREATE (depth 1-3, i.e. with implicit parents), RENAME onto deep names, DELETE, APPEND, COPY / MOVE of 1-4 messages, EXPUNGE, and connector MessagesCreated (1-4 messages into 1-2 mailboxes), MessageMailboxesUpdated and MailboxCreated, followed by a concurrent phase (3-8 sessions APPEND / COPY into a nearly full mailbox and CREATE at the mailbox limit at the same time). After every step fresh views and LIST are taken and the monitor checks: mailboxes <= max, messages per mailbox <= max, every UID <= max; an operation answered NO / acknowledged with an error leaves every mailbox (UIDs, UIDNEXT, flags) and the mailbox list unchanged; an operation that fits by the counts before it is accepted. distinct = distinct (operation, fits?, outcome) triples")
 	r.Assume("the hidden recovery mailbox counts as one mailbox for the 'fits' rule but not for the upper bound check (the bound is checked against the mailboxes LIST shows as selectable); COPY/MOVE are only required to be accepted when the destination holds none of the messages yet; the UID maximum is exclusive for the 'fits' rule (gluon's own suite asserts that), inclusive for the upper-bound check")
 
-	hist := r.Pick(100, 1500)
+	hist := r.Pick(250, 2500)
 
 	ev.Parallel(hist, 10, func(i int) {
 		label := fmt.Sprintf("hist-%d", i)
@@ -436,9 +436,15 @@ func c17History(r *ev.Run, label string, steps int) {
 
 			c.c.Cmdf("SELECT %s", imapc.Quote(box))
 			c.c.Cmdf(`STORE %d +FLAGS.SILENT (\Deleted)`, 1+rng.Intn(len(src.Msgs)))
-			res := c.c.Cmd("EXPUNGE")
+
+			// half of the time the message stays, flagged \Deleted: it still counts
+			res := &imapc.Result{Status: "skipped"}
+			if rng.Intn(2) == 0 {
+				res = c.c.Cmd("EXPUNGE")
+			}
+
 			c.c.Cmd("UNSELECT")
-			c.logf("[%s] expunge -> %s", box, res.Status)
+			c.logf("[%s] flag \\Deleted, expunge -> %s", box, res.Status)
 
 			if !c.judge("EXPUNGE "+box, true, true, false) {
 				return
